@@ -84,7 +84,7 @@ def gen_history(r, k):
                 d = r.choice(PT + PR + SG + ["TOT", "UNK"])
                 t = r.choice([None, None, 1, 2, 0])
                 reso = r.choice([None, "pathways", "types", "processes", "signals", "off"])
-            ops.append({"op": "add", "v": v, "reso": reso, "d": d, "t": t})
+            ops.append({"op": "add", "v": v, "reso": reso, "d": d, "t": t, "real": (i + k) % 3 == 0})
         elif u < 0.75:
             new = r.choice(LEVELS + ["bogus"])
             if new in LEVELS and LEVELS.index(new) <= lvl and not (lvl == 2 and new == "signals"):
@@ -161,7 +161,10 @@ class Runner:
         o = self.obj
         if op["op"] == "add":
             try:
-                o._add_data(op["v"] * self.BASE, resolution=op["reso"], dtype=pyname(op["d"]), tag=op["t"])
+                arr = op["v"] * self.BASE
+                if op.get("real"):
+                    arr = self.numpy.array(arr.real)          # a real-typed array (the values are the same)
+                o._add_data(arr, resolution=op["reso"], dtype=pyname(op["d"]), tag=op["t"])
                 return True, ("err",)
             except Exception:
                 return False, ("err",)
